@@ -13,6 +13,7 @@ driving process per scalar sub-element, (ii) no process variable is visible outs
 from __future__ import annotations
 
 import hashlib
+import re
 
 from vf.core import rng
 from vf.gen import render
@@ -156,6 +157,12 @@ def cases():
     add("raw:push+raw:assign", "reject", fn(RAW, "p1", E1, "    if self.a:", "        self.o2 ^= self.d"), fn(RAW, "p2", E1, "    self.o2 <<= 1"))
     add("raw:push-slice+seq-other-slice", "reject", fn(RAW, "p1", E1, "    sb[1:0] ^= self.d[1:0]"), fn(SEQ, "p2", "sb[3:2] <<= self.d[3:2]"), fn(CON, "c3", "self.o2 <<= sb.unsigned"))
     add("raw:push-local-signal+conc", "reject", fn(RAW, "p1", "nonlocal s", E1, "    s ^= self.d"), fn(CON, "c2", "nonlocal s", "s <<= 1"))
+    # --- code hoisted out of a process with cohdl.always: nothing of it may stay behind as a process variable ------------
+    add("always:runtime-index-of-vector", "accept", fn(SEQ, "p1", "nonlocal s", "with cohdl.always:", "    self.ob <<= sb[self.d[1:0].unsigned]", "s <<= self.d"), fn(CON, "c2", "sb.next = self.d.bitvector"))
+    add("always:runtime-index-of-array", "accept", fn(SEQ, "p1", "mem[0] <<= self.d", "self.o2 <<= cohdl.always(mem[self.d[1:0].unsigned])"))
+    add("always:runtime-index-expression", "accept", fn(SEQ, "p1", "nonlocal s", "with cohdl.always:", "    self.ob <<= sb[(self.d[1:0].unsigned + 1)[1:0].unsigned]", "s <<= self.d"), fn(CON, "c2", "sb.next = self.d.bitvector"))
+    add("always:reads-variable", "reject", fn(SEQ, "p1", "nonlocal v, s", "v @= self.d", "with cohdl.always:", "    self.o2 <<= v", "s <<= v"))
+    add("always:value-reads-variable", "reject", fn(SEQ, "p1", "nonlocal v, s", "v @= self.d", "self.o2 <<= cohdl.always(v + 1)", "s <<= v"))
     # --- reset interplay ----------------------------------------------------------------------------------
     add("always-target-with-reset", "single-driver", fn(SEQR, "p1", "with cohdl.always:", "    s.next = self.d", "self.o2 <<= s"))
     add("seq-with-reset", "accept", fn(SEQR, "p1", "nonlocal s", "s <<= self.d", "self.o2 <<= s"))
@@ -234,6 +241,17 @@ def evaluate(c, seed, idx):
             # an accepted design whose VHDL the reference elaborator refuses: only driver-related rules belong here
             if det.get("rule") in ("assign-to-input", "multiple-drivers", "variable-scope"):
                 return "accepted", "accepted-" + det["rule"], dict(det, case=c["name"])
+            if det.get("rule") == "undeclared":
+                # an identifier that is not visible where it is used but IS declared as a variable of some process: a process
+                # variable that appears outside its process (the statement's last sentence)
+                mm = re.search(r"'(\w+)' is not declared", det.get("msg", ""))
+                if mm:
+                    try:
+                        text, _ = render.compile_source(src, "E", sidecar=True)
+                    except render.Rejected:
+                        text = ""
+                    if re.search(rf"(?im)^\s*variable\s+{re.escape(mm.group(1))}\s*:", text):
+                        return "accepted", "accepted-process-variable-used-outside-its-process", dict(det, case=c["name"], variable=mm.group(1))
             return "skipped", None, {"reason": "illegal-vhdl:" + str(det.get("rule"))}
         return "accepted", stt, det
     if c["expected"] == "reject":
